@@ -18,6 +18,8 @@ func init() {
 			"every exit of a walk function that signals an error (return r.err()) has recorded an error on all paths in the validation pass; every leaf walker tests null-ness before it tests the JSON kind and, on the null edge, either renders null under Nullable or records the non-null violation; the JSON tree is nulled only in the validation pass (two idempotent array sites frozen); " +
 			"the renderer's bookkeeping stacks (response path, runtime type names, enclosing type names) are balanced on every exit of every walk function. It does not decide JSON validity, key-set equality or projection equality (value level).",
 		Mutants: []Mutant{
+			{Name: "the enum error is worded as an array element whenever the path ends in an index (reverts the F98 fix)", File: resolvableGo, Rule: "C02-R15", Key: "Resolvable.renderInaccessibleEnumValueError/array-element-decision-reads-the-node",
+				Old: "\tif len(e.Path) == 0 && pathLength > 1 && r.path[pathLength-1].Name == \"\" {", New: "\tif pathLength > 1 && r.path[pathLength-1].Name == \"\" {"},
 			{Name: "an object is abstract only with more than one possible type (seeded changes C02-2, C02-12, C02-21)", File: "v2/pkg/engine/resolve/node_object.go", Rule: "C02-R13", Key: "Object.isAbstract/not-by-count-alone",
 				Old: "\tif len(o.PossibleTypes) == 1 {\n\t\t_, self := o.PossibleTypes[o.TypeName]\n\t\treturn !self\n\t}\n\treturn false\n", New: "\treturn false\n"},
 			{Name: "forwarded extension keys written raw (reverts the F45 fix)", File: "v2/pkg/engine/resolve/resolvable.go", Rule: "C02-R12", Key: "Resolvable.printExtensions/raw-string-content-printed",
@@ -64,6 +66,7 @@ var c02Recorders = map[string]bool{
 }
 
 func runC02(r *fw.Run) {
+	defer c02ArrayElementWordingReadsTheNode(r)
 	defer c02CopyPreserves(r)
 	defer c02UnmergeablePayloadsStaySoft(r)
 	defer c02StringContentNeverPrintedRaw(r)
@@ -1279,4 +1282,69 @@ func c02UnmergeablePayloadsStaySoft(r *fw.Run) {
 	if n == 0 {
 		r.Pass("C02-R14", "Loader.mergeResult/no-merge-failure-returned", p.Pos(fi.Decl.Pos()), "no return of Loader.mergeResult carries the error of a failed merge ("+itoa(len(mergeErr))+" merge error variables)", len(mergeErr) > 0)
 	}
+}
+
+// c02ArrayElementWordingReadsTheNode (R15): an error says where the offending value sits; its path is the response path of
+// that position. A renderer that words and places an error as "array element … at index i" decides that from what it is
+// given. A leaf that is an element of a list and a leaf that is a field of an object which is an element of a list are both
+// rendered while the current path ends in an index (the field's own path is pushed later): the two states differ only in
+// the node's own path, so a decision that does not read the node cannot tell them apart (an information argument, as for
+// C02-R13). Rule: in every method of the Resolvable that takes the node it reports about as a parameter, a branch that
+// calls the array-element wording is chosen by a condition that mentions that parameter.
+func c02ArrayElementWordingReadsTheNode(r *fw.Run) {
+	p := r.Prog
+	r.Rule("C02-R15", "a Resolvable error renderer that is handed the node it reports about chooses the 'array element … at index' wording (and path) only under a condition that reads that node")
+	n := 0
+	for _, fi := range p.Funcs("resolve") {
+		if fw.RecvNameOfFunc(fi.Obj) != "Resolvable" {
+			continue
+		}
+		info := fi.Info()
+		sig := fi.Obj.Type().(*types.Signature)
+		var nodes []*types.Var
+		for i := 0; i < sig.Params().Len(); i++ {
+			if pt, ok := sig.Params().At(i).Type().(*types.Pointer); ok {
+				if nt, isN := pt.Elem().(*types.Named); isN && nt.Obj().Pkg() == fi.Obj.Pkg() && planTypes[nt.Obj().Name()] {
+					nodes = append(nodes, sig.Params().At(i))
+				}
+			}
+		}
+		if len(nodes) == 0 {
+			continue
+		}
+		fw.WalkAll(fi.Decl.Body, func(nd ast.Node) bool {
+			is, ok := nd.(*ast.IfStmt)
+			if !ok {
+				return true
+			}
+			words := false
+			fw.WalkAll(is.Body, func(x ast.Node) bool {
+				if c, isC := x.(*ast.CallExpr); isC {
+					if fn := fw.Callee(info, c); fn != nil && fn.Name() == "writeArrayElementToBuffer" {
+						words = true
+					}
+				}
+				return true
+			})
+			if !words {
+				return true
+			}
+			reads := false
+			fw.WalkAll(is.Cond, func(x ast.Node) bool {
+				if id, isID := x.(*ast.Ident); isID {
+					for _, nv := range nodes {
+						if info.Uses[id] == nv {
+							reads = true
+						}
+					}
+				}
+				return true
+			})
+			n++
+			r.Check(reads, "C02-R15", fi.Name()+"/array-element-decision-reads-the-node", p.Pos(is.Pos()), "the array-element wording in "+fi.Name()+" is chosen by a condition that reads the node",
+				fi.Name()+" decides \"this value is an array element\" from the current path alone (it ends in an index): an enum *field* of an object that is itself a list element is rendered under the same path — `users: [User]`, `User.status: Status` with the inaccessible value `INTERNAL` in `users[1].status`: the error reads `Invalid value found for array element of type Status at index 1.` with path `[\"users\",1]`, the path of the surviving element, instead of `[\"users\",1,\"status\"]`")
+			return true
+		})
+	}
+	r.Expect("C02-R15", "array-element wordings chosen in renderers that are handed the node", n, 1)
 }
